@@ -155,7 +155,7 @@ SHARED_HELPER_MODULES = ["tlexport.key_derivator", "tlexport.quic.quic_key_gener
 ALLOWED_PARAM_WRITES = {"tlexport.quic.quic_dissector.extract_quic_packet": {"param:in_packet"}}
 
 
-@harness(["C04", "C03", "C18", "C08"], "demux.isolation_frames", functions=[])
+@harness(["C04", "C03", "C18", "C08", "C01", "C02", "C15"], "demux.isolation_frames", functions=[])
 def h_frames(c):
     """FRAME obligations (syntactic effect inference on the real ASTs, conservative): every method of the
     per-connection classes writes only through `self`, locals or its own parameters, never a module-level name; the
@@ -210,13 +210,13 @@ def h_ambient(c):
                 c.ensure("frame[%s.%s].no_ambient_state" % (m.split(".")[-1], node.name), not bad, kind="frame")
 
 
-@harness(["C09", "C04"], "keylog.sessions_share_the_runs_keylog", functions=[SE + ".__init__", QS + ".__init__"], cases=[("tls",), ("quic",)])
+@harness(["C09", "C04", "C01", "C02"], "keylog.sessions_share_the_runs_keylog", functions=[SE + ".__init__", QS + ".__init__"], cases=[("tls",), ("quic",)])
 def h_alias(c, kind):
     """a session keeps the run's key list ITSELF (not a snapshot): secrets from a DSB that appears later in the capture
     are visible when the session derives its keys; the list is not modified by the constructor"""
     if c.native:
         return
-    keylog = [c.opaque("k0")]
+    keylog = [_key(c, "k0")]
     pkt = c.obj("tlexport.packet.Packet", ipv6_packet=False, ip_src=c.bytes("ip_src", length=4), ip_dst=c.bytes("ip_dst", length=4),
                 sport=c.int("sport", 0, 65535), dport=c.int("dport", 0, 65535), ethernet_src=c.bytes("es", length=6),
                 ethernet_dst=c.bytes("ed", length=6), seq=c.int("seq", 0, 2 ** 32 - 1), tls_data=c.bytes("data", min_len=1), timestamp=1.0)
@@ -226,8 +226,17 @@ def h_alias(c, kind):
         out = c.new(QS, pkt, [443], keylog, {}, True)
     c.ensure("no_raise", out.exc is None, kind="raises")
     if out.exc is None:
-        c.ensure("same_list_object", c.get(out.value, "keylog") is keylog)
         c.ensure("list_untouched", len(keylog) == 1)
+        # what the identity is for: a secret the run appends later (a DSB further down the capture) is in the session's view of the key log
+        late = _key(c, "late")
+        keylog.append(late)
+        view = c.get(out.value, "keylog")
+        c.ensure("later_secrets_are_visible_to_the_session", any(x is late for x in view))
+
+
+def _key(c, tag):
+    """a key-log entry as keylog_reader.Key builds it: label, client random and secret as strings (a record-protection label here)"""
+    return c.obj("tlexport.keylog_reader.Key", _bare=True, label="CLIENT_RANDOM", client_random="ab" * 32, value="cd" * 48)
 
 
 def _mutable_reach(root, stop_ids):
@@ -254,7 +263,34 @@ def _mutable_reach(root, stop_ids):
     return seen
 
 
-@harness(["C04", "C03", "C18"], "demux.fresh_instances_are_separate", functions=[SE + ".__init__", QS + ".__init__", "tlexport.quic.quic_tls_parser.QuicTlsSession.__init__"],
+def _aliased_containers(root, stop_ids):
+    """containers (lists, dicts, sets, bytearrays) reachable from `root` through more than one edge"""
+    from pyvc.interp import Obj, SetVal
+    from pyvc.core import ByteArr
+    edges, seen, todo = {}, set(), [root]
+    while todo:
+        o = todo.pop()
+        if id(o) in seen or id(o) in stop_ids:
+            continue
+        seen.add(id(o))
+        if isinstance(o, (list, tuple)):
+            kids = list(o)
+        elif isinstance(o, dict):
+            kids = list(o.values())
+        elif isinstance(o, SetVal):
+            kids = list(o.items)
+        elif isinstance(o, Obj):
+            kids = list(o.attrs.values())
+        else:
+            kids = []
+        for k in kids:
+            if isinstance(k, (list, dict, SetVal, ByteArr)) and id(k) not in stop_ids:
+                edges[id(k)] = edges.get(id(k), 0) + 1
+            todo.append(k)
+    return [i for i, n in edges.items() if n > 1]
+
+
+@harness(["C04", "C03", "C18", "C01", "C02", "C15", "C08"], "demux.fresh_instances_are_separate", functions=[SE + ".__init__", QS + ".__init__", "tlexport.quic.quic_tls_parser.QuicTlsSession.__init__"],
          cases=[("Session",), ("QuicSession",), ("QuicTlsSession",)])
 def h_separate(c, which):
     """SEPARATION: two connections created by the real constructors share no mutable object except the run-wide ones they are
@@ -263,7 +299,7 @@ def h_separate(c, which):
     would make two connections' reassembly buffers one object.)"""
     if c.native:
         return
-    keylog, portmap, ports = [c.opaque("k0")], {}, [443]
+    keylog, portmap, ports = [_key(c, "k0")], {}, [443]
 
     def packet(tag):
         return c.obj("tlexport.packet.Packet", ipv6_packet=False, ip_src=c.bytes("ip_src" + tag, length=4), ip_dst=c.bytes("ip_dst" + tag, length=4),
@@ -280,10 +316,13 @@ def h_separate(c, which):
     c.ensure("no_raise", a.exc is None and b.exc is None, kind="raises")
     if a.exc is not None or b.exc is not None:
         return
-    shared_ok = {id(keylog), id(portmap), id(ports)}
+    shared_ok = {id(keylog), id(portmap), id(ports)} | {id(k) for k in keylog}
     ra, rb = _mutable_reach(a.value, shared_ok), _mutable_reach(b.value, shared_ok)
     common = [o for i, o in ra.items() if i in rb]
     c.ensure("two_instances_share_no_mutable_object", not common)
+    # ... and WITHIN one connection every container is its own object: no list / dict / set / bytearray hangs on two places of the
+    # instance (dict.fromkeys(keys, []) or [[]] * n would make the buffers of all encryption levels / directions one list)
+    c.ensure("no_container_of_an_instance_is_reachable_twice", not _aliased_containers(a.value, shared_ok))
     # nothing mutable of an instance hangs on a module-level name or a class attribute
     glob = {}
     for q in PER_CONNECTION_CLASSES + ["tlexport.main"]:
